@@ -480,3 +480,181 @@ def rotate(lst, seed):
         return lst
     k = seed % len(lst)
     return lst[k:] + lst[:k]
+
+
+# --------------------------------------------------------------------------------------------------
+# MIX family: deviation-bounded neighbourhoods that CROSS the dimensions the other families vary alone
+# --------------------------------------------------------------------------------------------------
+# A blueprint is described by a configuration over MIX_DIMS. Every dimension has a default value (its
+# first one). The family is the set of ALL configurations that differ from a *centre* in at most k
+# dimensions (k = 2 quick, 3 thorough), for each of the centres below: the bounded space is the
+# Hamming ball of radius k, enumerated exhaustively (simplest first: by number of deviations, then
+# lexicographically). Configurations that are meaningless (a mode for a middleware that is absent)
+# are dropped; configurations producing the same blueprint are merged.
+MIX_DIMS = [
+    ("t0_flav", ["P", "Kn", "Kc", "Y"]),          # plain / Clone never-clone / Clone clone-if-necessary / Copy
+    ("t0_lc", ["request_scoped", "transient", "singleton"]),
+    ("t0_var", ["s", "f", "a"]),                   # sync infallible / fallible / async
+    ("t0_at", ["same", "parent", "shadow"]),       # registered next to the route / in the parent blueprint / in both
+    ("t1", [None, "v", "r"]),                      # T1 (plain) built from T0 by value / by reference
+    ("t1_lc", ["request_scoped", "transient"]),
+    ("h_t0", ["r", "v", "m", None]),               # how the handler takes T0
+    ("h_t1", [None, "r", "v"]),
+    ("h_fall", [False, True]),
+    ("mw1_kind", ["pre", None, "post", "wrap"]),
+    ("mw1_t0", [None, "r", "v", "m"]),
+    ("mw1_fall", [False, True]),
+    ("mw2_kind", [None, "pre", "post", "wrap"]),
+    ("mw2_t0", [None, "r", "v"]),
+    ("mw2_fall", [False, True]),
+    ("obs", [None, "plain1", "t0r", "plain2"]),
+    ("eh", ["default", "fallback", "specific", "attached"]),
+    ("eh_t0", [None, "r", "v"]),
+    ("nest", ["flat", "route_nested", "prefix", "mid"]),
+    ("route2", [None, "plain", "r", "v"]),          # a second route registered before the middlewares
+    ("late", [None, "pre"]),                        # a middleware registered after the route (must not run)
+]
+MIX_CENTRES = {
+    "A": {},
+    # error plumbing everywhere: fallible T0, fallible handler, fallible wrap + post, one observer, specific handlers
+    "B": {"t0_var": "f", "h_fall": True, "mw1_kind": "wrap", "mw1_fall": True, "mw2_kind": "post", "obs": "plain1",
+          "eh": "specific"},
+}
+_MIX_ERR_OF = {"pre": "ERRPRE", "post": "ERRPOST", "wrap": "ERRW", "handler": "ERRH", "ctor": "ERRC"}
+
+
+def mix_shape(cfg):
+    """Configuration -> list of ops, or None when the configuration is meaningless."""
+    fl = cfg["t0_flav"][0]
+    cl = "clone_if_necessary" if cfg["t0_flav"] == "Kc" else None
+    if cfg["t1"] is None and (cfg["t1_lc"] != "request_scoped" or cfg["h_t1"] is not None):
+        return None
+    if cfg["mw1_kind"] is None and (cfg["mw1_t0"] is not None or cfg["mw1_fall"]):
+        return None
+    if cfg["mw2_kind"] is None and (cfg["mw2_t0"] is not None or cfg["mw2_fall"]):
+        return None
+    if cfg["mw1_kind"] == "wrap" and cfg["mw1_t0"] == "m":
+        return None  # no such component in the library (wraps with &mut inputs exist, but keep the alphabet small)
+    if cfg["eh"] == "default" and cfg["eh_t0"] is not None:
+        return None
+    if cfg["nest"] == "mid" and cfg["mw2_kind"] is None:
+        return None
+    t0_used = any(cfg[k] is not None for k in ("t1", "h_t0", "mw1_t0", "mw2_t0", "eh_t0")) or cfg["obs"] == "t0r" \
+        or cfg["route2"] in ("r", "v")
+    if not t0_used:
+        return None
+    eh_code = in_code(fl, cfg["eh_t0"])
+
+    def eh_for(kind):
+        if cfg["eh"] == "attached":
+            return f"EH_{_MIX_ERR_OF[kind]}_2__{eh_code}"
+        return None
+
+    t0 = ctor_op(0, fl, "0", cfg["t0_var"], cfg["t0_lc"], cl, eh=eh_for("ctor") if cfg["t0_var"] == "f" else None)
+    ehs = []
+    if cfg["eh"] == "fallback":
+        ehs = [{"k": "eh", "c": f"EH_PAVEXERROR_1__{eh_code}"}]
+    elif cfg["eh"] == "specific":
+        ehs = [{"k": "eh", "c": f"EH_{e}_1__{eh_code}"} for e in ("ERRC", "ERRH", "ERRPRE", "ERRPOST", "ERRW")]
+    ctors = [t0]
+    if cfg["t1"] is not None:
+        ctors.append(ctor_op(1, "P", in_code(fl, cfg["t1"]), "s", cfg["t1_lc"], None))
+    obs = []
+    if cfg["obs"] == "plain1":
+        obs = [{"k": "observer", "c": "OBS1__0"}]
+    elif cfg["obs"] == "plain2":
+        obs = [{"k": "observer", "c": "OBS1__0"}, {"k": "observer", "c": "OBS2__0"}]
+    elif cfg["obs"] == "t0r":
+        obs = [{"k": "observer", "c": "OBS1__YV" if fl == "Y" else f"OBS1__{fl}R"}]
+    r2 = []
+    if cfg["route2"] is not None:
+        code = {"plain": "0", "r": in_code(fl, "r"), "v": in_code(fl, "v")}[cfg["route2"]]
+        r2 = [{"k": "route", "c": f"H1__{code}_0_0__I"}]
+    mws = []
+    counters = {"pre": 0, "post": 0, "wrap": 0}
+    for which in ("mw1", "mw2"):
+        k = cfg[f"{which}_kind"]
+        if k is None:
+            mws.append(None)
+            continue
+        counters[k] += 1
+        op = {"k": k, "c": mw_id(k, counters[k], cfg[f"{which}_fall"], in_code(fl, cfg[f"{which}_t0"]))}
+        if cfg[f"{which}_fall"] and eh_for(k):
+            op["eh"] = eh_for(k)
+        mws.append(op)
+    route = {"k": "route", "c": handler_id(0, [in_code(fl, cfg["h_t0"]), in_code("P", cfg["h_t1"]), "0"], cfg["h_fall"])}
+    if cfg["h_fall"] and eh_for("handler"):
+        route["eh"] = eh_for("handler")
+    late = [{"k": "pre", "c": mw_id("pre", 3)}] if cfg["late"] else []
+    mw_ops = [m for m in mws if m is not None]
+    head = ehs + ctors + obs + r2
+    if cfg["nest"] == "flat":
+        body = head + mw_ops + [route] + late
+    elif cfg["nest"] == "route_nested":
+        body = head + mw_ops + [{"k": "nest", "bp": {"ops": [route] + late}}]
+    elif cfg["nest"] == "prefix":
+        body = [{"k": "nest", "prefix": "/p", "bp": {"ops": head + mw_ops + [route] + late}}]
+    else:  # mid: the first middleware in the parent, the second one and the route in the child
+        first = [mws[0]] if mws[0] is not None else []
+        body = head + first + [{"k": "nest", "bp": {"ops": [mws[1], route] + late}}]
+    if cfg["t0_at"] == "same":
+        return body
+    body_wo_t0 = _mix_without(body, t0)
+    if cfg["t0_at"] == "parent":
+        return [t0, {"k": "nest", "bp": {"ops": body_wo_t0}}]
+    # shadow: another registration of the same type in the parent; the nearest one must win
+    outer = dict(t0)
+    outer["c"] = t0["c"][:-1] + "S2" if cfg["t0_var"] == "s" else f"C_T0{fl}__0__S"
+    outer.pop("eh", None)
+    return [outer, {"k": "nest", "bp": {"ops": body}}]
+
+
+def _mix_without(ops, target):
+    out = []
+    for op in ops:
+        if op is target:
+            continue
+        if op["k"] == "nest":
+            op = dict(op)
+            op["bp"] = {"ops": _mix_without(op["bp"]["ops"], target)}
+        out.append(op)
+    return out
+
+
+def mix_configs(k):
+    """All configurations within Hamming distance k of a centre, simplest first, no duplicates."""
+    names = [d for d, _ in MIX_DIMS]
+    seen = set()
+    out = []
+    for cname, centre in MIX_CENTRES.items():
+        base = {d: vals[0] for d, vals in MIX_DIMS}
+        base.update(centre)
+        for r in range(0, k + 1):
+            for dims in itertools.combinations(range(len(MIX_DIMS)), r):
+                choices = [[v for v in MIX_DIMS[i][1] if v != base[names[i]]] for i in dims]
+                for combo in itertools.product(*choices):
+                    cfg = dict(base)
+                    for i, v in zip(dims, combo):
+                        cfg[names[i]] = v
+                    key = tuple(cfg[n] for n in names)
+                    if key in seen:
+                        continue
+                    seen.add(key)
+                    out.append((cname, r, cfg))
+    return out
+
+
+def mix_shapes(tier):
+    k = 2 if tier == "quick" else 3
+    shapes = []
+    seen = set()
+    for cname, r, cfg in mix_configs(k):
+        sh = mix_shape(cfg)
+        if sh is None:
+            continue
+        key = json.dumps(sh, sort_keys=True)
+        if key in seen:
+            continue
+        seen.add(key)
+        shapes.append(sh)
+    return shapes
